@@ -5,7 +5,13 @@ observations) are run on the real Counter, EventBasedCounter, Tally and
 EventBasedTally (without, with one and with all subscribers) of /repo and on
 the Gallina model Stats.Tally (binary64 instance) inside coqc; how every call
 ended and every public getter after (a sample of) the calls must agree bit for
-bit.  A model-independent oracle (fractions.Fraction evaluation of the
+bit.  Second tie: the method bodies of Counter and Tally are translated from the
+source text of the tree under test on every run (translator/py2gallina_stats.py)
+and coq/Stats/GenAgree.v must prove the generated definitions equal to the
+hand-written model; when that breaks, the oracle below searches (also an extra
+batch of cases) for a concrete failing input, and only if there is none the run
+reports `translated-model-differs ... no-failing-input-found`.
+A model-independent oracle (fractions.Fraction evaluation of the
 textbook definitions, tolerance scaled by the data's condition number; exact
 agreement on value / NaN / raise; "never raises" and "rejected observations
 change nothing" checked directly on the implementation) classifies
@@ -24,7 +30,8 @@ import common as C
 import c09lib as L
 
 PID = "C09"
-TARGETS = ["Stats/TallyProofs.vo", "Props/C09.vo"]
+# built in coq/ (independent of the source text); Gen_Stats / GenAgree / Props are compiled per tree (c09lib.StatsTree)
+TARGETS = ["Stats/TallyProofs.vo", "Stats/GenericTotal.vo"]
 
 GETTERS = [
     ("mean", "mean", lambda t: t.mean()),
@@ -655,7 +662,13 @@ def describe_ops(case):
 def main(tier: str) -> int:
     L.quiet_import()
     run = C.Run(PID, tier)
-    proofs_ok = run.check_proofs(TARGETS, extra_tb=[
+    try:
+        tree = L.StatsTree().prepare()
+    except Exception as exc:  # noqa
+        run.violation("translated-model-not-buildable", f"the model could not be regenerated from the source: {type(exc).__name__}: {exc}",
+                      {"unchecked": "coq/Stats/GenAgree.v"}, found_input=False)
+        return run.finish()
+    proofs_ok = L.check_proofs(run, tree, TARGETS, extra_tb=[
         "statistics.NormalDist.inv_cdf is external: a section variable in the theorems (contract: defined on (0,1)), "
         "an oracle table recorded from the same run in the correspondence check",
         "math.sqrt over the rationals is an uninterpreted function the theorems quantify over (sqrt-containing getters are "
@@ -735,6 +748,30 @@ def main(tier: str) -> int:
         run.add_sample({"class": case["cls"], "subscribers": case["subs"], "calls": describe_ops(case)[:12],
                         "last_snapshot": {k: (v if k in ("n", "ci") else v[1]) for k, v in (steps[-1]["snap"] or {}).items()}
                         if case["kind"] == "tally" else steps[-1]["snap"]})
+
+    # ---- the regenerated model no longer equals the proved one: look harder for a concrete failing input
+    tie = tree.broken_for(PID)
+    if tie and not found:
+        rng2 = random.Random(run.seed * 7919 + 909)
+        extra = [gen_tally_case(rng2, i) for i in range(n_tally)] + \
+                [gen_tally_case(rng2, i, long_n=ln) for i, ln in enumerate(longs[:2])] + \
+                [gen_counter_case(rng2, i) for i in range(n_counter)]
+        tried = 0
+        for case in extra:
+            tried += 1
+            try:
+                steps = run_case(case)
+            except Exception:  # noqa
+                continue
+            bad, _ = oracle(case, steps)
+            if bad:
+                found[bad[0]] = (case, bad)
+                break
+        run.cov["extra_cases_searched_after_broken_tie"] = tried
+    if tie:
+        run.cov["source_translation"]["tie"] = {"status": "broken", **{k: v for k, v in tie.items() if k != "failures"}}
+    else:
+        run.cov["source_translation"]["tie"] = {"status": "checked"}
 
     for sig, (case, bad) in found.items():
         small = shrink_case(case, sig)
@@ -818,6 +855,8 @@ def main(tier: str) -> int:
                        "first_difference (step, getter index in Stats.Tally.tsnap_checks; 99 = how the call ended)": diag,
                        "relation": "Stats.Tally.tcase_ok"},
                       found_input=False)
+    if tie and not found:
+        L.report_broken_tie(run, tree, {"model_impl_mismatching_cases": len(mism)})
     if not proofs_ok and not run.violations:
         run.violation("proof-broken", "a C09 proof obligation no longer checks: " + getattr(run, "proof_log", "")[-800:],
                       {"theorems": run.cov.get("theorems")}, found_input=False)
